@@ -57,7 +57,7 @@ CHECKS = {
  "C10": dict(level="exploration", design="DESIGN.md §4 C10",
    technique="deterministic simulation with stored-byte fault injection observed at the process boundary: field-aware hostile mutations of spec-valid files, splices and random bytes, every decode entry point, in batch processes with RLIMIT_AS that announce each input; oracle no panic / process alive / CPU watchdog / allocation ceilings",
    text="Hostile inputs (every length/offset/size/count/crc/opcode field of reference-encoded files set to boundary and huge values, truncation, duplication, splicing, opcode changes incl. nested chunks, compressed chunks whose stream is shorter / longer than declared or whose zstd / lz4 frame header declares a huge content size, random bytes) go through the lexer under 8 option sets, all Parse* functions, NewReader/Info/Messages in 4 modes and random access at indexed and hostile offsets, inside a child process with an 8 GiB address-space cap that names the input before running it: no panic, no process death, no hang (CPU watchdog per evaluation), allocation per entry within the documented ceilings. Seeded sampling, not coverage-guided.",
-   note="Trusted: process isolation and in-flight file, runtime.MemStats accounting. Decompression bombs are allowed for (bound grows with bytes returned). After two entries allocated a permitted >512 MiB buffer for one input, the remaining unlimited entries are skipped for that input (counted)."),
+   note="Trusted: process isolation and in-flight file, runtime.MemStats accounting. Decompression bombs are allowed for (bound grows with bytes returned). After two entries allocated a permitted >100 MiB buffer for one input, the remaining unlimited entries are skipped for that input (counted)."),
  "C11": dict(level="exploration", design="DESIGN.md §4 C11",
    technique="deterministic simulation over reference-encoder layouts: each content encoded plain and decorated (unknown-opcode records at top level / in chunks / at summary group boundaries, trailing bytes on every extensible record); all Go readers compared with the model",
    text="Each generated content is laid out by the reference encoder twice - plain and with unknown records (0x10..0xFF, any length incl. 0) and appended bytes (incl. the conformance pad 01 ff ff), all pointers recomputed and both files validated by refmcap - and everything the Go readers report on the decorated file (lexer content, scan, indexed reads in 3 orders incl. topic-restricted, Info, random access) must equal the model. Samples the space.",
